@@ -251,8 +251,12 @@ func (r *Run) writeEvidence(level string, nviol int) {
 		ev["assumptions"] = []string{}
 	}
 	b, _ := json.MarshalIndent(ev, "", " ")
-	_ = os.MkdirAll(filepath.Join(Root, "evidence"), 0o755)
-	_ = os.WriteFile(filepath.Join(Root, "evidence", r.ID+".json"), b, 0o644)
+	dir := filepath.Join(Root, "evidence")
+	if d := os.Getenv("VERIF_EVIDENCE_DIR"); d != "" { // diagnostic runs (cover.sh) keep the registered evidence untouched
+		dir = d
+	}
+	_ = os.MkdirAll(dir, 0o755)
+	_ = os.WriteFile(filepath.Join(dir, r.ID+".json"), b, 0o644)
 }
 
 // ParallelFor runs f(i) for i in [0,n) on all cores; f must be safe for concurrent use.
